@@ -6,6 +6,13 @@ package corr
 // was given, did not panic or hang) and, after each input, a well-formed probe packet must still be
 // handled (`probe ok`).  The Lean side predicts exactly this for every input (the decoders are
 // total: Props/C02*.lean), so any PANIC / HANG / n-out>n-in line is a disagreement.
+//
+// The caller's read buffer has any size (`cap=<bytes>` on an `rtp` / `rtcp` op, default 1500; `short=err`: a
+// transport that answers a buffer smaller than the datagram with io.ErrShortBuffer instead of truncating like a
+// UDP socket): exactly the datagram's size, a few bytes more, fewer.  Whatever the size, a Read reports at most
+// len(buffer) bytes (`n-out>buf` - the caller slices b[:n]); a Read without error hands over the bytes the transport
+// delivered (`READ-ALTERED`), or - with the jitter buffer in the chain, which hands on an OLDER packet - bytes that
+// parse as an RTP packet (`READ-UNPARSABLE`).  The Lean driver does not read the two fields: the answer stays `ok`.
 
 import (
 	"encoding/hex"
@@ -203,8 +210,14 @@ func c02Run(t *testing.T, ops []string, o *Out) {
 	synctest.Test(t, func(t *testing.T) {
 		s := &c02State{rtpIn: map[uint32][]byte{}, readers: map[uint32]interceptor.RTPReader{}, writers: map[uint32]interceptor.RTPWriter{}}
 		probe := NewRng(7)
+		bufCap, shortErr := 1500, false
 		deliver := func(what string, ssrc uint32, data []byte, stale bool) {
-			buf := make([]byte, 1500)
+			buf := make([]byte, bufCap)
+			// what the transport hands over: the datagram, cut to the buffer
+			handed := data
+			if len(handed) > len(buf) {
+				handed = handed[:len(buf)]
+			}
 			if stale {
 				for i := range buf {
 					buf[i] = 0xA5 // stale bytes after n from an earlier, larger packet
@@ -246,11 +259,16 @@ func c02Run(t *testing.T, ops []string, o *Out) {
 				o.P("BLOCKED %s", what)
 				return
 			}
-			_ = err
 			switch {
 			case n == -1:
+			case n > len(buf):
+				o.P("n-out>buf %s %d>%d", what, n, len(buf))
 			case n > len(data) && !(what == "rtp" && n <= 1500 && s.jitter()):
 				o.P("n-out>n-in %s %d>%d", what, n, len(data))
+			case err == nil && n >= 0 && !(what == "rtp" && s.jitter()) && hexs(buf[:n]) != hexs(handed[:min(n, len(handed))]):
+				o.P("READ-ALTERED %s got=%s delivered=%s", what, hexs(buf[:n]), hexs(handed))
+			case err == nil && n >= 0 && what == "rtp" && s.jitter() && (&rtp.Packet{}).Unmarshal(buf[:n]) != nil && (&rtp.Packet{}).Unmarshal(handed) == nil:
+				o.P("READ-UNPARSABLE rtp got=%s", hexs(buf[:n]))
 			default:
 				o.P("ok")
 			}
@@ -291,11 +309,17 @@ func c02Run(t *testing.T, ops []string, o *Out) {
 				s.kind = a["kind"]
 				s.ic.BindRTCPWriter(interceptor.RTCPWriterFunc(func([]rtcp.Packet, interceptor.Attributes) (int, error) { return 0, nil }))
 				s.rtcpR = s.ic.BindRTCPReader(interceptor.RTCPReaderFunc(func(b []byte, at interceptor.Attributes) (int, interceptor.Attributes, error) {
+					if shortErr && len(b) < len(s.rtcpIn) {
+						return 0, at, io.ErrShortBuffer
+					}
 					return copy(b, s.rtcpIn), at, nil
 				}))
 				for ssrc := uint32(1); ssrc <= 2; ssrc++ {
 					ssrc := ssrc
 					s.readers[ssrc] = s.ic.BindRemoteStream(lcInfo(ssrc), interceptor.RTPReaderFunc(func(b []byte, at interceptor.Attributes) (int, interceptor.Attributes, error) {
+						if shortErr && len(b) < len(s.rtpIn[ssrc]) {
+							return 0, at, io.ErrShortBuffer
+						}
 						return copy(b, s.rtpIn[ssrc]), at, nil
 					}))
 					s.writers[ssrc] = s.ic.BindLocalStream(lcInfo(ssrc), interceptor.RTPWriterFunc(func(h *rtp.Header, p []byte, _ interceptor.Attributes) (int, error) {
@@ -316,13 +340,33 @@ func c02Run(t *testing.T, ops []string, o *Out) {
 					o.P("bad-op")
 					continue
 				}
-				deliver(name, ssrc, data, a["stale"] == "1")
-				// a well-formed probe must still be handled
-				if name == "rtcp" {
-					deliver("rtcp", 0, c02ValidRTCP(probe, 1), false)
-				} else {
-					deliver("rtp", ssrc, c02ValidRTP(probe, ssrc), false)
+				bufCap, shortErr = 1500, a["short"] == "err"
+				slack := 1500
+				if a["cap"] != "" {
+					if bufCap = atoi(a["cap"]); bufCap < 0 || bufCap > 65536 {
+						o.P("bad-op")
+						continue
+					}
+					slack = bufCap - len(data)
 				}
+				deliver(name, ssrc, data, a["stale"] == "1")
+				// a well-formed probe must still be handled; the application reads it the way it read the input (a
+				// buffer with the same slack over the datagram, never too small for the probe itself)
+				pb := c02ValidRTCP
+				if name == "rtp" {
+					pb = c02ValidRTP
+				}
+				pdata := pb(probe, map[string]uint32{"rtcp": 1, "rtp": ssrc}[name])
+				bufCap = 1500
+				if a["cap"] != "" && slack >= 0 && slack < 1500 {
+					bufCap = len(pdata) + slack
+				}
+				if name == "rtcp" {
+					deliver("rtcp", 0, pdata, false)
+				} else {
+					deliver("rtp", ssrc, pdata, false)
+				}
+				bufCap, shortErr = 1500, false
 			case "out":
 				ssrc := uint32(atoi(a["ssrc"]))
 				w := s.writers[ssrc]
@@ -446,6 +490,21 @@ func init() {
 				label = "chain"
 			}
 			ops := []string{"new kind=" + kind}
+			// the application's read buffers: in half of the cases of the reading classes every Read of the case
+			// gets a buffer sized after the datagram (exact, a little more, less), else the usual 1500 bytes
+			br := NewRng(r.s ^ 0xB0FFE5)
+			tight := br.Bool()
+			sized := func(op string, b []byte) string {
+				if !tight {
+					return op
+				}
+				n := len(b)
+				c := br.Pick(n, n, n, n+1, n+br.Range(2, 40), 1500, n-1, n-br.Range(1, 12), n/2, 12, 11, br.Intn(1501))
+				if c < 0 {
+					c = 0
+				}
+				return op + fmt.Sprintf(" cap=%d short=%s", c, br.Pick2("trunc", "err"))
+			}
 			var ssrcSeq map[uint32]int
 			burstLen := 0
 			nops := r.Range(6, 14)
@@ -470,15 +529,19 @@ func init() {
 				switch cls {
 				case "valid":
 					if r.Bool() && (seqRun < 0 || r.Chance(1, 4)) {
-						ops = append(ops, fmt.Sprintf("rtcp b=%s", hexs(c02ValidRTCP(r, ssrc))))
+						b := c02ValidRTCP(r, ssrc)
+						ops = append(ops, sized(fmt.Sprintf("rtcp b=%s", hexs(b)), b))
 					} else {
-						ops = append(ops, fmt.Sprintf("rtp ssrc=%d b=%s stale=%d", ssrc, hexs(run(c02ValidRTP(r, ssrc))), r.Intn(2)))
+						b := run(c02ValidRTP(r, ssrc))
+						ops = append(ops, sized(fmt.Sprintf("rtp ssrc=%d b=%s stale=%d", ssrc, hexs(b), r.Intn(2)), b))
 					}
 				case "mutated":
 					if r.Bool() {
-						ops = append(ops, fmt.Sprintf("rtcp b=%s", hexs(c02Mutate(r, c02ValidRTCP(r, ssrc)))))
+						b := c02Mutate(r, c02ValidRTCP(r, ssrc))
+						ops = append(ops, sized(fmt.Sprintf("rtcp b=%s", hexs(b)), b))
 					} else {
-						ops = append(ops, fmt.Sprintf("rtp ssrc=%d b=%s stale=%d", ssrc, hexs(c02Mutate(r, run(c02ValidRTP(r, ssrc)))), r.Intn(2)))
+						b := c02Mutate(r, run(c02ValidRTP(r, ssrc)))
+						ops = append(ops, sized(fmt.Sprintf("rtp ssrc=%d b=%s stale=%d", ssrc, hexs(b), r.Intn(2)), b))
 					}
 				case "random":
 					b := make([]byte, r.Pick(0, 1, 2, 4, 7, 8, 12, 16, 33, 200, 1500))
@@ -489,9 +552,9 @@ func init() {
 						b[0] = 0x80 | b[0]&0x3F // plausible version bits
 					}
 					if r.Bool() {
-						ops = append(ops, fmt.Sprintf("rtcp b=%s", hexs(b)))
+						ops = append(ops, sized(fmt.Sprintf("rtcp b=%s", hexs(b)), b))
 					} else {
-						ops = append(ops, fmt.Sprintf("rtp ssrc=%d b=%s stale=1", ssrc, hexs(b)))
+						ops = append(ops, sized(fmt.Sprintf("rtp ssrc=%d b=%s stale=1", ssrc, hexs(b)), b))
 					}
 				case "outgoing":
 					// consecutive numbers per stream (FEC batches need them); sizes around every buffer boundary:
